@@ -19,6 +19,7 @@ class Scenario:
 
 class Fake:
     def __init__(self, scenario):
+        self.seq_count = {}
         self.sc = scenario
         self.log = []          # dicts: method, path, query, headers, authed
         self.lock = threading.Lock()
@@ -38,6 +39,8 @@ class Fake:
         self.url = "http://127.0.0.1:%d" % self.port
         self.t = threading.Thread(target=self.srv.serve_forever, daemon=True)
         self.t.start()
+
+    seq_count = None
 
     def close(self):
         self.srv.shutdown()
@@ -95,7 +98,15 @@ class Fake:
             idx = names.index(host) if host in names else -1
             entry["host_index"] = idx
             if idx in sc.faults:
-                return self.fault(rq, sc.faults[idx], send, echo, sc.payloads[idx] if idx >= 0 else b"")
+                f = sc.faults[idx]
+                if f[0] == "seq":
+                    # a different behaviour for each successive (authenticated) request for this host; None = serve normally
+                    with self.lock:
+                        k = self.seq_count.get(idx, 0)
+                        self.seq_count[idx] = k + 1
+                    f = f[1][k] if k < len(f[1]) else None
+                if f is not None:
+                    return self.fault(rq, f, send, echo, sc.payloads[idx] if idx >= 0 else b"")
             if idx < 0:
                 return send(404, echo)
             return send(200, sc.payloads[idx], [("Content-Type", "application/gzip")])
